@@ -114,6 +114,26 @@ func NewPacketDslParserByContent(data string) (*gen.PacketDslParser, *antlr.Comm
 	return parser, stream, nil
 }
 
+// collectSyntaxErrors routes the errors of both the parser and its lexer to listener, so that
+// unrecognised characters and unterminated literals are reported like any other syntax error.
+func collectSyntaxErrors(parser *gen.PacketDslParser, stream *antlr.CommonTokenStream, listener *SyntaxErrorListener) {
+	parser.RemoveErrorListeners()
+	parser.AddErrorListener(listener)
+	if lexer, ok := stream.GetTokenSource().(*gen.PacketDslLexer); ok {
+		lexer.RemoveErrorListeners()
+		lexer.AddErrorListener(listener)
+	}
+}
+
+// checkAllInputConsumed reports input left over after the last definition: the grammar's
+// start rule does not end in EOF, so the generated parser stops silently at the first token
+// that cannot start a definition.
+func checkAllInputConsumed(stream *antlr.CommonTokenStream, listener *SyntaxErrorListener) {
+	if tok := stream.LT(1); tok != nil && tok.GetTokenType() != antlr.TokenEOF {
+		listener.SyntaxError(nil, tok, tok.GetLine(), tok.GetColumn(), "extraneous input '"+tok.GetText()+"' expecting a packet, MetaData or options definition", nil)
+	}
+}
+
 // RenderToString render tmpl
 func RenderToString(tmpl string, lang string, data interface{}) (string, error) {
 	t := template.Must(template.New(lang).Parse(tmpl))
